@@ -85,7 +85,9 @@ class StmtGen:
                                                   "sequence", "iterable", "mapping", "boolean"]),
                           neg=self.rnd.random() < 0.3)
         if r < 0.8:
-            f = self.rnd.choice(["default", "length", "first", "last", "join", "list", "string", "sum", "abs", "int", "e"] + (["safe"] if "safe" in self.f else []))
+            f = self.rnd.choice((["default", "first", "last", "join", "list", "sum", "abs", "int"] if "neutral" in self.f else
+                                 ["default", "length", "first", "last", "join", "list", "string", "sum", "abs", "int", "e"])
+                                + (["safe"] if "safe" in self.f else []))
             args = []
             if f == "default":
                 args = [sub()] + ([C(True)] if self.rnd.random() < 0.3 else [])
@@ -166,9 +168,11 @@ class StmtGen:
             self.macros.append((name, np_))
             return m
         if r < 0.89:
-            return J.SetBlock(self.name(), self.body(depth - 1, inloop, inmacro), rnd.choice([None, None, "string", "e"]))
+            return J.SetBlock(self.name(), self.body(depth - 1, inloop, inmacro),
+                              None if "neutral" in self.f else rnd.choice([None, None, "string", "e"]))
         if r < 0.93:
-            return J.FilterBlock(rnd.choice(["string", "e", "default"]), self.body(depth - 1, inloop, inmacro))
+            return J.FilterBlock("default" if "neutral" in self.f else rnd.choice(["string", "e", "default"]),
+                                 self.body(depth - 1, inloop, inmacro))
         if r < 0.97 and self.macros:
             m, np_ = rnd.choice(self.macros)
             cp = rnd.choice([[], ["v"]])
@@ -281,6 +285,7 @@ NAME_SCHEMES = {
 # ---------------------------------------------------------------------------
 
 BLOCKS = ["a", "b", "c", "d"]
+_NEUTRAL = [False]     # set by neutral_corpus: only escaping-neutral filters
 
 
 def _block_body(rnd, lvl, name, others, depth, in_root, used, allow_nested=True):
@@ -304,7 +309,7 @@ def _block_body(rnd, lvl, name, others, depth, in_root, used, allow_nested=True)
                 used.add(nb)
                 body.append(J.Block(nb, _block_body(rnd, lvl, nb, others, depth - 1, in_root, used)))
         else:
-            body.append(J.Out(J.Filter(N("s"), rnd.choice(["e", "string", "default"]))))
+            body.append(J.Out(J.Filter(N("s"), "default" if _NEUTRAL[0] else rnd.choice(["e", "string", "default"]))))
     return body
 
 
@@ -633,4 +638,62 @@ def corpus(seed, n_stmt, n_inh, n_mod, n_expr, auto="mixed", start_id=1):
     cases += expr_cases(seed * 31 + 4, n_expr, start_id=start_id + len(cases), depth=3, auto=a)
     for c in cases:
         c.pop("emit_values", None)
+    return cases
+
+
+# ---------------------------------------------------------------------------
+# async iterables (C09): names ag1/ag2 are only used where async mode accepts async iterables
+# ---------------------------------------------------------------------------
+
+def aiter_case(rnd, cid):
+    def it():
+        return N(rnd.choice(["ag1", "ag2"]))
+    body = []
+    for _ in range(rnd.randint(1, 3)):
+        r = rnd.random()
+        if r < 0.45:
+            inner = [J.Out(N("x"))]
+            if rnd.random() < 0.7:
+                inner.append(J.Out(J.Getattr(N("loop"), rnd.choice(["index", "first", "last", "length", "revindex", "nextitem", "previtem"]))))
+            if rnd.random() < 0.3:
+                inner.append(J.If([J.Cmp(N("x"), ("eq", C(2)))], [[rnd.choice([J.BREAK, J.CONTINUE])]]))
+            inner.append(J.Text(","))
+            flt = J.Cmp(N("x"), (rnd.choice(["gt", "ne"]), C(rnd.choice([1, 2])))) if rnd.random() < 0.4 else None
+            body.append(J.For(J.TName("x"), it(), inner, [J.Text("EMPTY")] if rnd.random() < 0.5 else None, flt))
+        elif r < 0.6:
+            body.append(J.Out(J.Filter(it(), "join", [C("|")])))
+        elif r < 0.7:
+            body.append(J.Out(J.Filter(it(), "list")))
+        elif r < 0.8:
+            body.append(J.Out(J.Filter(it(), rnd.choice(["first", "sum"]))))
+        elif r < 0.9:
+            body.append(J.Set("acc", J.Filter(it(), "list")))
+            body.append(J.Out(J.Filter(N("acc"), "length")))
+        else:
+            body.append(J.For(J.TTuple([J.TName("x"), J.TName("y")]), N("agp"), [J.Out(N("x")), J.Text(":"), J.Out(N("y")), J.Text(";")]))
+        body.append(J.Text(" "))
+    datas = [{"ag1": J.vlist([J.vint(1), J.vint(2), J.vint(3)]), "ag2": J.vlist([]),
+              "agp": J.vlist([J.vlist([J.vint(1), J.vint(2)], True), J.vlist([J.vint(3), J.vint(4)], True)])},
+             {"ag1": J.vlist([J.vint(2)]), "ag2": J.vlist([J.vint(5), J.vint(2), J.vint(2), J.vint(0)]), "agp": J.vlist([])}]
+    return J.make_case(cid, {"main": J.template(body, False)}, "main", datas)
+
+
+def aiter_cases(seed, n, start_id=1):
+    rnd = random.Random(seed)
+    return [aiter_case(rnd, start_id + i) for i in range(n)]
+
+
+def neutral_corpus(seed, n_stmt, n_inh, n_mod, auto, start_id=1):
+    """Escaping-neutral programs (no safe / escape / string / length on rendered fragments); the
+    same seed with auto=True and auto=False yields the same programs."""
+    _NEUTRAL[0] = True
+    try:
+        cases = random_cases(seed * 31 + 1, n_stmt, start_id=start_id, auto_mode="on" if auto else "off", size=8,
+                             features=("loopcontrols", "neutral"), neutral=True)
+        cases += inherit_cases(seed * 31 + 2, n_inh, start_id=start_id + len(cases), auto=auto)
+        cases += module_cases(seed * 31 + 3, n_mod, start_id=start_id + len(cases), auto=auto)
+    finally:
+        _NEUTRAL[0] = False
+    for c in cases:
+        c["neutral"] = True
     return cases
